@@ -32,6 +32,8 @@ structure Cfg where
   rejectsSlash : Bool    -- the name constructors refuse / escape '/' inside a part
   defDepth : Nat         -- depth and folders-per-level the server ships with
   defPer : Nat
+  validatesRanges : Bool -- the SDK client refuses server ranges that do not partition 1..allIslands
+  cacheKeyedByN : Bool   -- the per-object island cache remembers the N it was computed for
   deriving DecidableEq, Repr
 
 /-- both sides add 1 and the server computes on 16 bits -/
@@ -51,6 +53,12 @@ def srvIsland (cfg : Cfg) (h N : Nat) : Option Nat :=
 /-- the per-object cache: a non-zero cached value is returned whatever `N` is now -/
 def islandCached (cache : Nat) (fresh : Option Nat) : Option Nat :=
   if cache ≠ 0 then some cache else fresh
+
+/-- a second `GetIslandID(N2)` on a name object that already answered `GetIslandID(N1)` -/
+def secondCall (cfg : Cfg) (h N1 N2 : Nat) : Option Nat :=
+  match sdkIsland cfg h N1 with
+  | some i => if cfg.cacheKeyedByN && N1 ≠ N2 then sdkIsland cfg h N2 else islandCached i (sdkIsland cfg h N2)
+  | none => sdkIsland cfg h N2
 
 /-! ### "%x" -/
 
